@@ -844,7 +844,9 @@ def leaves_expression():
     k = Symbol("k")  # dimensionless
     f = Function("f", [t], u.length)
     plain = sp.Symbol("p")
-    return [S.Zero, S.One, sp.Integer(2), sp.Integer(-1), sp.Rational(1, 2), sp.Float(2.5), oo, x, t, m, k, f(t), plain,
+    from symplyphysics.core.operations.symbolic import Average, FiniteDifference
+    symbolic = [Average(x), FiniteDifference(t)]  # declare a dimension without being a Quantity or a DimensionSymbol
+    return symbolic + [S.Zero, S.One, sp.Integer(2), sp.Integer(-1), sp.Rational(1, 2), sp.Float(2.5), oo, x, t, m, k, f(t), plain,
             Quantity(0), Quantity(0, dimension=u.length), Quantity(2 * u.meter), Quantity(3 * u.second), Quantity(5), u.meter, u.second,
             sp.Derivative(f(t), t), x / t, x * Quantity(2 * u.meter)]
 
@@ -868,8 +870,11 @@ def approx_pool():
     u = _units()
     from symplyphysics import Quantity
     ops = [Quantity(5 * u.meter), Quantity(5 * u.second), 5, Quantity(5.004 * u.meter), Quantity(5.006 * u.meter), Quantity(1000.5 * u.meter), Quantity(1 * u.kilometer),
-           Quantity(0), Quantity((1 + 2 * sp.I) * u.meter), Quantity((1 + 2.001 * sp.I) * u.meter), Quantity((1 + 2.1 * sp.I) * u.meter), 1000.5, Quantity(500 * u.centimeter)]
-    tols = [(None, None), (0, 1e-6), (0.01, None), (None, 1.0), (0.0, None)]
+           Quantity(0), Quantity((1 + 2 * sp.I) * u.meter), Quantity((1 + 2.001 * sp.I) * u.meter), Quantity((1 + 2.1 * sp.I) * u.meter), 1000.5, Quantity(500 * u.centimeter),
+           # pairs straddling the boundary rho*|smaller| < |difference| <= rho*|larger| (symmetry), and complex pairs whose parts differ in size
+           Quantity(1000 * u.meter), Quantity(1001.0005 * u.meter), Quantity((1000 + 1 * sp.I) * u.meter), Quantity((1000 + 1.5 * sp.I) * u.meter),
+           Quantity((2 + 5000 * sp.I) * u.meter), Quantity((0.0005 + 5 * sp.I) * u.kilometer)]
+    tols = [(None, None), (0, 1e-6), (0.01, None), (None, 1.0), (0.0, None), (None, 0.01)]
     dims = [None, u.length, u.time]
     return ops, tols, dims
 
